@@ -694,7 +694,9 @@ def rules(tier):
             # mutation sweep: the scorer's table loader storing under field 0 / refusing level 0
             ('C11.R20', _shared_rule('c11', 'r20_scorer_table_fields')),
             # C11-eb: _find_cp memoised without bottom_level - an exact-level lookup answered from a range lookup
-            ('C11.R21', _shared_rule('c10', 'r4_exact_last_transition'))]
+            ('C11.R21', _shared_rule('c10', 'r4_exact_last_transition')),
+            # C11-eb: _find_cp memo without bottom_level
+            ('C11.R22', _shared_rule('c10', 'r25_cracker_plumbing'))]
 
 
 META = {
